@@ -495,6 +495,8 @@ class _PatchingASTWalker:
         if type_params:
             children.extend(["[", *self._child_nodes(type_params, ","), "]"])
         children.extend(["(", node.args, ")"])
+        if node.returns is not None:
+            children.extend(["->", node.returns])
         children.append(":")
         children.extend(node.body)
         self._handle(node, children)
@@ -507,18 +509,28 @@ class _PatchingASTWalker:
 
     def _arguments(self, node):
         children = []
-        args = list(node.args)
+        posonlyargs = list(getattr(node, "posonlyargs", []))
+        args = posonlyargs + list(node.args)
         defaults = [None] * (len(args) - len(node.defaults)) + list(node.defaults)
         for index, (arg, default) in enumerate(zip(args, defaults)):
             if index > 0:
                 children.append(",")
             self._add_args_to_children(children, arg, default)
+            if posonlyargs and index == len(posonlyargs) - 1:
+                children.extend([",", "/"])
         if node.vararg is not None:
-            if args:
+            if children:
                 children.append(",")
             children.extend(["*", node.vararg.arg])
+        elif node.kwonlyargs:
+            if children:
+                children.append(",")
+            children.append("*")
+        for arg, default in zip(node.kwonlyargs, node.kw_defaults):
+            children.append(",")
+            self._add_args_to_children(children, arg, default)
         if node.kwarg is not None:
-            if args or node.vararg is not None:
+            if children:
                 children.append(",")
             children.extend(["**", node.kwarg.arg])
         self._handle(node, children)
@@ -634,7 +646,10 @@ class _PatchingASTWalker:
         self._handle(node, [str(node.value)])
 
     def _arg(self, node):
-        self._handle(node, [node.arg])
+        children = [node.arg]
+        if node.annotation is not None:
+            children.extend([":", node.annotation])
+        self._handle(node, children)
 
     def _Pass(self, node):
         self._handle(node, ["pass"])
